@@ -61,18 +61,23 @@ def run(tier):
 
     def limits():
         resource.setrlimit(resource.RLIMIT_AS, (6 << 30, 6 << 30))
-    pr = subprocess.run([bins['c13x'], '-probe-cycle'], capture_output=True, text=True, preexec_fn=limits, timeout=600)
-    cyc = []
-    if pr.returncode == 0 and pr.stdout.startswith('error:'):
-        cyc = ['-cycles']          # survives: the two lines join the alphabet of the exhaustive part
-    elif pr.returncode == 0:
-        fnd.report('missing-error class=self cause=indirect-cycle', 'Resolve says `%s` for a preamble whose variables refer to each other (@{p} = @{q}/1, @{q} = @{p}/2)' % pr.stdout.strip(),
-                   {'preamble_lines': ['@{p} = @{q}/1', '@{q} = @{p}/2', '@{exec_path} = /bin/e']})
-    else:
-        last = [l for l in pr.stderr.split('\n') if 'fatal error' in l or 'exceeds' in l or 'out of memory' in l][:2]
-        fnd.report('crash class=self cause=indirect-cycle', 'Resolve does not return on a preamble whose variables refer to each other (@{p} = @{q}/1, @{q} = @{p}/2): the process dies (exit %d: %s)' % (pr.returncode, ' / '.join(last) or pr.stderr[-200:]),
-                   {'preamble_lines': ['@{p} = @{q}/1', '@{q} = @{p}/2', '@{exec_path} = /bin/e']})
-    of = 18 + (2 if cyc else 0)
+    cyc = ['-cycles']
+    LAYOUTS = [('cycle', ['@{p} = @{q}/1', '@{q} = @{p}/2']), ('outsider-first', ['@{o} = @{p}/0', '@{p} = @{q}/1', '@{q} = @{p}/2']),
+               ('outsider-first-closed-by-append', ['@{o} = @{q}/0', '@{p} = /x', '@{q} = @{p}/2', '@{p} += @{q}/3'])]
+    for li, (lname, llines) in enumerate(LAYOUTS):
+        pr = subprocess.run([bins['c13x'], '-probe-cycle', '-layout', str(li)], capture_output=True, text=True, preexec_fn=limits, timeout=600)
+        tag = '' if li == 0 else ' layout=' + lname
+        if pr.returncode == 0 and pr.stdout.startswith('error:'):
+            continue
+        cyc = []          # Resolve does not survive every layout: the cycle lines stay out of the exhaustive part
+        if pr.returncode == 0:
+            fnd.report('missing-error class=self cause=indirect-cycle' + tag, 'Resolve says `%s` for a preamble whose variables refer to each other (%s)' % (pr.stdout.strip(), ' ; '.join(llines)),
+                       {'preamble_lines': llines + ['@{exec_path} = /bin/e']})
+        else:
+            last = [l for l in pr.stderr.split('\n') if 'fatal error' in l or 'exceeds' in l or 'out of memory' in l][:2]
+            fnd.report('crash class=self cause=indirect-cycle' + tag, 'Resolve does not return on a preamble whose variables refer to each other (%s): the process dies (exit %d: %s)' % (' ; '.join(llines), pr.returncode, ' / '.join(last) or pr.stderr[-200:]),
+                       {'preamble_lines': llines + ['@{exec_path} = /bin/e']})
+    of = 18 + (3 if cyc else 0)
     pool = ThreadPoolExecutor(C.NPROC)
 
     def shard(i):
